@@ -239,7 +239,10 @@ func (h *Hook) op(c *wConn, kind, query string) (string, Event, bool) {
 		h.log[ev.Block] = append(h.log[ev.Block], ev)
 	}
 	act, after := "", false
-	if h.RetryAll != "" && ev.Class == "tx" && ev.Attempt == 1 && !h.retryFired[ev.Block] && strings.Contains(ev.SQL, h.RetryAll) {
+	// (not inside NullifyBurnAddress: DBlockSync drops that function's error -- recorded finding of C10 -- so a
+	// failure there is swallowed instead of retried; the retry run is about what a ROLLED BACK attempt leaves behind)
+	if h.RetryAll != "" && ev.Class == "tx" && ev.Attempt == 1 && !h.retryFired[ev.Block] && strings.Contains(ev.SQL, h.RetryAll) &&
+		!strings.Contains(callSite(), "NullifyBurnAddress") {
 		if h.retryFired == nil {
 			h.retryFired = map[uint32]bool{}
 		}
